@@ -1149,6 +1149,54 @@ def _string_pop(pe, st, args, t):
     return some(("char", last))
 
 
+@pmodel("std::string::String::len", "core::str::<impl str>::len")
+def _string_len(pe, st, args, t):
+    toks = _str_tokens(pe, st, args[0])
+    if toks is None or not all(isinstance(x, int) for x in toks):
+        return TOP
+    return mk_int("usize", len("".join(chr(c) for c in toks).encode()))
+
+
+@pmodel("<T as std::string::ToString>::to_string")
+def _to_string(pe, st, args, t):
+    v = _deref(pe, st, args[0])
+    if v != TOP and v[0] == "int":
+        return ("string", tuple(ord(c) for c in str(v[2])))
+    if v != TOP and v[0] == "string":
+        return v
+    if v != TOP and v[0] == "str":
+        return ("string", tuple(ord(c) for c in v[1]))
+    return ("string", (("disp", v),))
+
+
+@pmodel("std::str::<impl str>::replace")
+def _str_replace(pe, st, args, t):
+    src = _str_tokens(pe, st, args[0])
+    pat = _str_tokens(pe, st, args[1])
+    to = _str_tokens(pe, st, args[2])
+    if src is None or pat is None or to is None or not pat or not all(isinstance(x, int) for x in pat):
+        raise _Abort("top", "replace() on unknown strings")
+    out = []
+    i = 0
+    n = len(pat)
+    while i < len(src):
+        if tuple(src[i:i + n]) == tuple(pat):
+            out += list(to)
+            i += n
+        else:
+            out.append(src[i])
+            i += 1
+    return ("string", tuple(out))
+
+
+@pmodel("<std::string::String as std::clone::Clone>::clone")
+def _string_clone(pe, st, args, t):
+    v = _deref(pe, st, args[0])
+    if v != TOP and v[0] == "string":
+        return v
+    raise _Abort("top", "clone of an unknown string")
+
+
 @pmodel("<std::string::String as std::ops::Deref>::deref", "std::string::String::as_str", "std::hint::must_use",
         "<std::vec::Vec<T, A> as std::ops::Deref>::deref", "std::vec::Vec::<T, A>::as_slice")
 def _identity(pe, st, args, t):
@@ -1196,7 +1244,7 @@ def _fmt_format(pe, st, args, t):
             elif v != TOP and v[0] == "string":
                 out += list(v[1])
             else:
-                out.append(("disp", v))
+                out.append(("disp", v, piece[2], piece[3], piece[4]))
     return ("string", tuple(out))
 
 
